@@ -987,6 +987,17 @@ func secrecyEngine(args []string, _ *bufio.Scanner, out *bufio.Writer) {
 	fmSch := mustScheme(schemes[int(seed)%len(schemes)])
 	fileMatrix(out, r, fmSch, []int{0, 0o022, 0o027, 0o077, 0o002})
 
+	// (A') noninterference twins on the real daemon (no beacon started, nothing signed)
+	syscall.Umask(0o077)
+	nTwins := 1
+	if tier != "quick" {
+		nTwins = len(schemes)
+	}
+	for t := 0; t < nTwins; t++ {
+		twins(out, r, mustScheme(schemes[(int(seed)+t)%len(schemes)]), 1)
+	}
+	out.Flush()
+
 	// (B) lives
 	type plan struct {
 		scheme                   string
@@ -994,7 +1005,9 @@ func secrecyEngine(args []string, _ *bufio.Scanner, out *bufio.Writer) {
 		reshare, joiner, restart bool
 	}
 	var plans []plan
-	if tier == "quick" {
+	if tier == "twins" { // debugging aid: matrix and twins only
+		plans = nil
+	} else if tier == "quick" {
 		plans = []plan{{schemes[int(seed)%len(schemes)], 3, true, false, true}}
 	} else {
 		for i, s := range schemes {
